@@ -228,10 +228,14 @@ def cases(seed, tier):
     n_rect = 10 if tier == 'quick' else 100
     for i in range(n_rect):
         c = gen_source_case(rng, big_ok=False)
-        c['cdelt_ratio'] = float(rng.choice([0.6, 0.75, 1.3, 1.6]))
+        # (ratios below one only: the second axis is sampled more finely, so the source stays well sampled; and the source sits
+        # ON the reference pixel, where north/east coincide with the pixel axes exactly - away from it, at high declination, the
+        # meridian turns by up to a degree across the image and the 'aligned' source becomes an oblique one, i.e. D51; both found
+        # by the thorough tier as 4 alarms in 100 cases, all explained by these two effects)
+        c['cdelt_ratio'] = float(rng.choice([0.6, 0.7, 0.8]))
         c['flip_dec'] = False
         c['use_cd'] = False
-        c['crpix'] = [c['shape'][1] / 2.0 + float(rng.uniform(-10, 10)), c['shape'][0] / 2.0 + float(rng.uniform(-10, 10))]
+        c['crpix'] = [c['index'][1] + 1.0, c['index'][0] + 1.0]
         c['beam'][1] = c['beam'][0] * float(rng.uniform(0.55, 0.8))
         c['beam'][2] = float(rng.choice([-1, 1]) * rng.uniform(25, 65))
         if i % 2:
